@@ -582,19 +582,50 @@ func init() {
 				sp, kind := c07Spec(rng, i)
 				out = append(out, drv.Scenario{Kind: kind, Seed: seed, Params: mustJSON(sp), TimeoutS: 120, Solo: kind == "close-waiting"})
 			}
+			// the model runs draw from their own source, so that adding session kinds does not reshuffle them
+			rng = rand.New(rand.NewSource(seed*7919 + 11))
 			for i := 0; i < nm; i++ {
 				m := &c07Model{NumVB: 1 + rng.Intn(3), Nodes: 1 + rng.Intn(4), Replicas: rng.Intn(4), IntervalMs: 10 + rng.Intn(15)}
+				last := map[[2]uint64][2]uint64{} // (vb, copy) -> (uuid, persisted) it reports
 				for k := 0; k < 6+rng.Intn(8); k++ {
 					st := [4]uint64{uint64(rng.Intn(m.NumVB)), uint64(rng.Intn(m.Replicas + 1)), 0, uint64(1 + rng.Intn(50))}
-					switch rng.Intn(6) {
+					cur := last[[2]uint64{st[0], st[1]}]
+					switch rng.Intn(8) {
 					case 0:
 						st[2] = 0xbeef
 					case 1:
 						if k > 0 {
 							st = m.Steps[k-1] // repeat
 						}
+					case 2, 3:
+						// only the vbUUID changes, the persisted seqno stays what this copy reported last: the step in
+						// which the last disagreeing copy joins the others looks like this
+						if cur[1] > 0 {
+							st[3] = cur[1]
+							if cur[0] == 0 {
+								st[2] = 0xbeef
+							}
+						}
+					case 4:
+						st[2] = cur[0] // only the persisted seqno changes
 					}
+					last[[2]uint64{st[0], st[1]}] = [2]uint64{st[2], st[3]}
 					m.Steps = append(m.Steps, st)
+				}
+				if i%3 == 0 && m.Replicas >= 1 {
+					// every copy of vBucket 0 moves to the new branch one after the other at unchanged seqnos
+					for ix := 0; ix <= m.Replicas; ix++ {
+						cur := last[[2]uint64{0, uint64(ix)}]
+						if cur[1] == 0 {
+							cur[1] = uint64(1 + rng.Intn(50))
+							m.Steps = append(m.Steps, [4]uint64{0, uint64(ix), cur[0], cur[1]})
+						}
+						last[[2]uint64{0, uint64(ix)}] = cur
+					}
+					for ix := 0; ix <= m.Replicas; ix++ {
+						cur := last[[2]uint64{0, uint64(ix)}]
+						m.Steps = append(m.Steps, [4]uint64{0, uint64(ix), 0xfeed, cur[1]})
+					}
 				}
 				out = append(out, drv.Scenario{Kind: "model", Seed: seed, Params: mustJSON(m), TimeoutS: 120})
 			}
